@@ -352,10 +352,20 @@ def run_walk_op(op):
     try:
         cls = treewalkers.getTreeWalker(walker_name(op["builder"]))
         w = cls(tree)
-        a = canon_tokens(list(w))
+        toks = list(w)
+        a = canon_tokens(toks)
         b = canon_tokens(list(w))
         c = canon_tokens(list(cls(tree)))
-        return ("ok", a, b == a, c == a)
+        # a consumer may change the tokens it was given (that is how filters are written): the next walk must not see it
+        for t in toks:
+            if isinstance(t.get("data"), dict):
+                t["data"][(None, "data-poke")] = "1"
+            elif isinstance(t.get("data"), str):
+                t["data"] = t["data"] + "<poke>"
+            if "name" in t:
+                t["name"] = str(t["name"]) + "-poked"
+        d = canon_tokens(list(cls(tree)))
+        return ("ok", a, b == a, c == a and d == a)
     except Exception as e:
         return ("raise", type(e).__name__, str(e)[:200])
 
